@@ -1,18 +1,37 @@
 """Per-property claims (source of MANIFEST.json; tools/gen_manifest.py renders it)."""
 HOOK_COMMITS = []
 ENGINES = [
-    {"name": "lean-model", "path": "lean/", "serves_properties": ["C01", "C11", "C16", "C20"],
+    {"name": "lean-model", "path": "lean/", "serves_properties": ["C01", "C02", "C11", "C12", "C16", "C20"],
      "kind_free_text": "Lean 4 library Dbus (Spec, Model, Proofs, Props) + compiled line-protocol driver dbus-model"},
-    {"name": "tabulator", "path": "gen/", "serves_properties": ["C01", "C11", "C16", "C20"],
+    {"name": "tabulator", "path": "gen/", "serves_properties": ["C01", "C02", "C11", "C12", "C16", "C20"],
      "kind_free_text": "C translation units that #include repo sources and print finite tables; rendered to lean/Dbus/Generated"},
-    {"name": "h-lib", "path": "harness/lib/", "serves_properties": ["C01", "C11", "C16", "C20"],
+    {"name": "h-lib", "path": "harness/lib/", "serves_properties": ["C01", "C02", "C11", "C12", "C16", "C20"],
      "kind_free_text": "in-process C harnesses linked against the ASan/UBSan build of the working tree"},
 ]
 PENDING = "not implemented yet in this round (planned, see DESIGN.md §4/§7); no check is claimed"
 NOT_APPLICABLE = {p: PENDING for p in
-                  ["C02", "C03", "C04", "C05", "C06", "C07", "C08", "C09", "C10", "C12", "C13", "C14", "C15",
+                  ["C03", "C04", "C05", "C06", "C07", "C08", "C09", "C10", "C13", "C14", "C15",
                    "C17", "C18", "C19"]}
 CHECKS = {
+    "C02": {
+        "text": "Proved in Lean for every well-formed abstract message (any type, flags, header fields incl. unknown ones, any nested body): its "
+                "serialisation encodeMsg is accepted by the loader model and parses back to the same message (marshal_roundtrip), whatever parses "
+                "re-serialises to the same bytes (remarshal_identical), the image in the other byte order parses to the same values "
+                "(byteswap_values, via endian-independence of lengths and well-formedness), converting back is the identity, sizes agree. "
+                "The construction API (dbus_message_new, setters, append_basic, open/close container, append_fixed_array, copy, marshal) is tied to "
+                "encodeMsg by byte-identical differential runs of generated well-typed construction programs, plus parse-reserialise identity and "
+                "conversion of the model-made big-endian image back to native order inside the library.",
+        "note": "The incremental writer (back-patched array lengths) is compared, not modelled; dbus_message_append_args is covered through append_basic/fixed_array; UNIX_FD values are not built.",
+    },
+    "C12": {
+        "text": "Proved in Lean over the abstract field list, for all lists and values: a set field reads back (set_reads_back), all other fields are "
+                "untouched by set/delete/strip-unknown (set_frame, delete_frame, removeUnknown_frame), delete removes, stripping leaves only known "
+                "codes, flags/type/body/byte order untouched (edit_leaves_rest), the serialised header always ends 8-aligned with zero padding "
+                "(padding_exact, encodeHeader), and whenever the edited message is well-formed its serialisation loads back as exactly that message "
+                "(edit_roundtrip, from the message-level completeness theorem). The library's in-place editing of wire messages (both byte orders, any "
+                "field order, unknown fields interleaved, values 0..40 bytes) is tied to encodeMsg of the edited list by byte-identical runs after every edit.",
+        "note": "Not proved: that well-formedness is preserved by an edit in general (array-length limits depend on offsets); the K-tie reloads nothing, it compares bytes.",
+    },
     "C01": {
         "text": "Proved in Lean for all byte strings, both byte orders, unbounded sizes: the value/body decoder (model of validate_body_helper + "
                 "type readers) accepts exactly the encodings of well-formed values (decode_accepts_only_encodings: canonicity — padding zero, "
@@ -21,7 +40,8 @@ CHECKS = {
                 "dbus_message_demarshal + the public accessor/iterator API by a three-way differential run (independent Python marshaller, C, Lean) over "
                 "valid messages and every single-site corruption, truncation, trailing bytes, field-level corruptions, boundary builders and garbage, "
                 "under ASan/UBSan with assertions. Message-level glue (header field checks, mandatory fields, local names) is modelled and compared; "
-                "its Lean statement as a single iff is in progress.",
+                "and proved: demarshal_accepts_iff_spec (loadOne = ok m n  <->  WFMsg m and the buffer starts with encodeMsg m, n its length), "
+                "accessors_eq_independent_decoding, message_size_limit.",
         "note": "F2, F3, F4 were found by this check and repaired in /repo (fix: commits). Limits 2^26/2^27 themselves are theorem + tables, not run.",
     },
     "C11": {
